@@ -11,8 +11,8 @@ reg(Prop('C19', [
 ], clauses=[
     'worklist_correct: FilterDependencies::get_reachable returns exactly the strictly sorted enumeration of the nodes reachable from the required set (all dependency maps, all required lists; never out of fuel with fuel = #nodes + #edges + 2)',
     'closure: for every well-formed forest and every required predicate the reserved set is the LEAST set containing the required DIEs and closed under parent, under the references the filter records, and under member-like children of retained non-namespace parents (children of the unit root get no parent edge)',
-    'edges_complete_partial / edges_complete_refuted: the filter records every reference the converter resolves for attribute references, top-level typed/call/parameter_ref operations and live location-list entries; it does NOT for DW_OP_implicit_pointer, DW_OP_GNU_variable_value, operations inside DW_OP_entry_value and location-list entries skipped by LocListIter (known finding)',
-    'no_dangling: when every reference site of the forest is of a covered kind and the unfiltered conversion succeeds, the filtered conversion never fails with InvalidUnitRef/InvalidDebugInfoRef and every reference of a retained DIE targets a retained DIE or a unit root',
+    'edges_complete / edges_sound: for EVERY carrier (attribute references, every reference-carrying operation at any DW_OP_entry_value nesting depth, in an exprloc or in any raw location-list entry incl. those LocListIter skips) the filter records every reference the converter resolves, and nothing else',
+    'no_dangling: whenever the unfiltered conversion succeeds the filtered conversion succeeds (never InvalidUnitRef/InvalidDebugInfoRef for an unreserved DIE) and emits exactly the reserved DIEs; policy_agrees: the reserved set is the closure over exactly the references the converter resolves',
     'per_unit_slices: reserve_unit receives for each unit exactly the reachable offsets lying in that unit',
     'parents_kept: every retained DIE is attached to its own parent (or the unit root)',
 ], explored_only=[
@@ -21,6 +21,6 @@ reg(Prop('C19', [
     'split-unit filters (FilterUnitSection::new_split) are not exercised',
 ], design_ref='§5 C19, §8 S9',
     level_text='Coq theorems over a Gallina model of FilterDependencies / FilterUnit::read_entry / ConvertUnitSection::new_with_filter / ConvertUnit::read_entry: the worklist equals graph reachability, the reserved set is the least parent/reference/member-closed set, per-unit slicing is exact, covered references never dangle. The model is tied to gimli on ~30k generated forests per quick run (exhaustive small forests x all required subsets), identities, parents, attributes and references of the written output being checked on the implementation itself.',
-    level_note='Genuine defect (known finding): references carried by DW_OP_implicit_pointer, DW_OP_GNU_variable_value, by operations inside DW_OP_entry_value and by location-list entries that LocListIter skips are converted but not recorded by the filter, so the filtered conversion fails with InvalidUnitRef/InvalidDebugInfoRef. Trusted: Coq kernel, hand-written model tied by differential execution, OCaml/Rust/Python glue.',
+    level_note='The defect found here (references carried by DW_OP_implicit_pointer, DW_OP_GNU_variable_value, operations inside DW_OP_entry_value and location-list entries skipped by LocListIter were converted but not recorded by the filter) is repaired in /repo 8f64179; the model mirrors the repaired code and mutants/C19/m9_revert_filter_refs_fix.diff re-introduces it. Trusted: Coq kernel, hand-written model tied by differential execution, OCaml/Rust/Python glue.',
     technique='Coq proof (worklist = inductive reachability, least closed set, slicing) over a Gallina model + differential correspondence with gimli on generated DWARF forests built with gimli::write (debug+release)',
 ))
